@@ -137,6 +137,26 @@ def run(ctx):
                     lits = c.must_literals(bi)
                     ok = any(l[0] == "bool" and l[2] is True and df.strip(l[1])[0] == "call" and
                              df.strip(l[1])[2] == "announce_propagate" for l in lits)
+                    if not ok and b.is_closure:
+                        # `tlvs.find(|t| t.tlv_type.announce_propagate()).map(|tlv| ForwardTLV{..})`: the element reaching
+                        # this closure passed the find predicate
+                        par, pbb = fc.closure_site(prog, b)
+                        if par is not None:
+                            ppv = df.Prov(par)
+                            for bj, tj, cj in mir.iter_calls(par, name="map"):
+                                clo_ = df.strip(ppv.op_tree(tj["args"][1])) if len(tj["args"]) > 1 else ("?",)
+                                if clo_[0] != "agg" or not str(clo_[1]).endswith(b.j.get("key", b.key)):
+                                    continue
+                                src_ = df.strip(ppv.op_tree(tj["args"][0]))
+                                if src_[0] == "call" and src_[2] == "find" and len(src_[3]) == 2:
+                                    pc = df.strip(src_[3][1])
+                                    if pc[0] == "agg" and str(pc[1]).startswith("closure:"):
+                                        pb = [x for x in par.unit.bodies.values() if x.is_closure and
+                                              (x.j.get("key") == pc[1][8:] or x.key == pc[1][8:])]
+                                        if pb:
+                                            rl = cnd.returns_literals(prog, pb[0], True)
+                                            ok = any(l[0] == "bool" and l[2] is True and df.strip(l[1])[0] == "call" and
+                                                     df.strip(l[1])[2] == "announce_propagate" for l in rl)
                     if ok:
                         rep.ok("TLV-1", b.key, "ForwardTLV under announce_propagate", where=fc.where(b, s["sp"][1]))
                     else:
